@@ -91,11 +91,20 @@ ExtraTx(i) == Tx(D(2020, 1, 1), Text(2),          \* the same, earliest, date in
                  << Post(AcctOfFile[i], <<Amt(i, 0, 4)>>), Post(AcctOfFile[(i % 4) + 1], <<[Amt(2, 0, 1) EXCEPT !.side = "L", !.sp = FALSE]>>),
                     Post(11, <<Amt(3, 0, 7)>>) >>)
 
+(* C15: two included files declare DIFFERENT display formats for the same commodity (USD, which every file's C15 transaction
+   uses): whichever rule picks the winner, it must pick the same one every time *)
+ExtraFormat(i) == IF ~Extra THEN <<>>
+                  ELSE IF i = 2 THEN <<[dir |-> "commodity", comm |-> 4, form |-> "inline", fmt |-> 1]>>       \* 1,000.00 USD
+                  ELSE IF i = 3 THEN <<[dir |-> "commodity", comm |-> 4, form |-> "inline", fmt |-> 6]>>       \* 1000 USD
+                  ELSE <<>>
+
 WFile(sh, i, x) ==
     [k \in 1..Len(sh.inc[i]) |-> [dir |-> "include", path |-> IncIdx[sh.inc[i][k]]]]
     \o WDecls(x)
+    \o ExtraFormat(i)
     \o LET n == Pick(1..MaxTx) IN [k \in 1..n |-> WTx(x + 1000 * k)]
     \o (IF Extra THEN <<ExtraTx(i)>> ELSE <<>>)
+
 
 (* ---- aggregates of a set of files ------------------------------------------------------------- *)
 TxsOf(abs) == SelectSeq(abs, LAMBDA e : e.type = "tx")
